@@ -1,0 +1,32 @@
+//go:build verif
+
+package wrgl
+
+import (
+	"github.com/google/uuid"
+	"github.com/spf13/cobra"
+	"github.com/wrgl/wrgl/pkg/conf"
+	"github.com/wrgl/wrgl/pkg/objects"
+	"github.com/wrgl/wrgl/pkg/ref"
+)
+
+// VerifCommit exposes commit (the body of `wrgl commit`) with injected stores to the verification harness.
+func VerifCommit(
+	cmd *cobra.Command, db objects.Store, rs ref.Store, csvFilePath, message, branchName string, primaryKey []string,
+	c *conf.Config, quiet bool, tid *uuid.UUID, delim rune,
+) ([]byte, error) {
+	return commit(cmd, db, rs, csvFilePath, message, branchName, primaryKey, c, quiet, tid, delim)
+}
+
+// VerifCommitWithTable exposes commitWithTable to the verification harness.
+func VerifCommitWithTable(cmd *cobra.Command, c *conf.Config, db objects.Store, rs ref.Store, branch string, tableSum []byte, message string, tid *uuid.UUID) ([]byte, error) {
+	return commitWithTable(cmd, c, db, rs, branch, tableSum, message, tid)
+}
+
+// VerifRunMerge exposes runMerge (the body of `wrgl merge`) with injected stores to the verification harness.
+func VerifRunMerge(
+	cmd *cobra.Command, c *conf.Config, db objects.Store, rs ref.Store, args []string, noCommit, noGUI bool,
+	ff conf.FastForward, commitCSV string, numWorkers int, message string, pk []string,
+) error {
+	return runMerge(cmd, c, db, rs, args, noCommit, noGUI, ff, commitCSV, numWorkers, message, pk)
+}
